@@ -22,7 +22,9 @@ EXPLANATION = (
     'transformation pairs x parameter equality; structural rules for the '
     'non-float operand filter, the no-quantize path, config selection for '
     'constants, the float-casting materialisers, exact parameter equality and '
-    'complete rewiring of repeated operands.'
+    'complete rewiring of repeated operands; resolution table over single-rule '
+    'stores (unmatched scope / no_quantize / other op / unsupported config all '
+    'resolve to no-quantize, at resolution time, for op-specific and * rules).'
 )
 LEVEL_TEXT = (
     'Exhaustive over the finite (precision x activation x weight granularity x '
@@ -494,3 +496,6 @@ def run(ctx):
   r7_float_casting(ctx)
   r8_exact_equality(ctx)
   r9_rewire_multiplicity(ctx)
+  from sa.rules import c11  # pylint: disable=g-import-not-at-top
+  c11.r23_resolution_table(ctx, 'C03.R10', 'an op resolves to no-quantize when its scope is unmatched, the rule says no_quantize, the rule targets another op, '
+                           'or the rule\'s config is not supported for the op (single-rule stores x 3 ops x 3 scopes)', single_only=True)
